@@ -5,5 +5,4 @@ cd "$(dirname "$0")"
 command -v verus >/dev/null
 command -v python3 >/dev/null
 mkdir -p out evidence
-python3 engine/mkmanifest.py >/dev/null
 echo setup ok
